@@ -4,6 +4,7 @@ import (
 	"fmt"
 
 	"github.com/buildkite/go-pipeline/ordered"
+	"github.com/buildkite/go-pipeline/warning"
 )
 
 // GroupStep models a group step.
@@ -27,13 +28,21 @@ type GroupStep struct {
 // UnmarshalOrdered unmarshals a group step from an ordered map.
 func (g *GroupStep) UnmarshalOrdered(src any) error {
 	type wrappedGroup GroupStep
-	if err := ordered.Unmarshal(src, (*wrappedGroup)(g)); err != nil {
+	err := ordered.Unmarshal(src, (*wrappedGroup)(g))
+	w := warning.As(err)
+	if w == nil && err != nil {
 		return fmt.Errorf("unmarshalling GroupStep: %w", err)
 	}
 
 	// Ensure Steps is never nil. Server side expects a sequence.
 	if g.Steps == nil {
 		g.Steps = Steps{}
+	}
+
+	// Warnings (e.g. an unknown step within the group) are passed on as
+	// warnings, so that the group itself remains a group.
+	if w != nil {
+		return w
 	}
 	return nil
 }
